@@ -43,7 +43,7 @@ class Stub(RegressorMixin, BaseEstimator):
         return out
 
 
-FC = namedtuple("FC", "name make req heavy")
+FC = namedtuple("FC", "name make req heavy alt")
 
 
 def _catalogue(tier):
@@ -67,42 +67,43 @@ def _catalogue(tier):
 
     c = []
 
-    def add(name, make, req=False, heavy=False):
-        c.append(FC(name, make, req, heavy))
+    def add(name, make, req=False, heavy=False, alt=None):
+        """alt: parameters given to set_params before a second fit (default: the current ones)"""
+        c.append(FC(name, make, req, heavy, alt))
 
     # ---- plain forecasters
-    add("Naive(last)", lambda: Naive())
-    add("Naive(last,sp=3)", lambda: Naive("last", sp=3))
-    add("Naive(mean,w=5)", lambda: Naive("mean", window_length=5))
+    add("Naive(last)", lambda: Naive(), alt={"strategy": "mean", "window_length": 6, "sp": 4})
+    add("Naive(last,sp=3)", lambda: Naive("last", sp=3), alt={"sp": 5})
+    add("Naive(mean,w=5)", lambda: Naive("mean", window_length=5), alt={"strategy": "drift"})
     add("Naive(mean,sp=3,w=7)", lambda: Naive("mean", sp=3, window_length=7))      # window not a multiple of sp
     add("Naive(drift)", lambda: Naive("drift"))
     add("Naive(drift,w=4)", lambda: Naive("drift", window_length=4))
-    add("Trend(1)", lambda: Trend(degree=1))
+    add("Trend(1)", lambda: Trend(degree=1), alt={"degree": 3})
     add("Trend(2,no-intercept)", lambda: Trend(degree=2, with_intercept=False))
-    add("ExpSmoothing()", lambda: ES(), heavy=True)
+    add("ExpSmoothing()", lambda: ES(), heavy=True, alt={"trend": "add"})
     add("ExpSmoothing(trend=add)", lambda: ES(trend="add"), heavy=True)
     add("Theta(sp=1)", lambda: ThetaForecaster(), heavy=True)
     add("Theta(sp=4)", lambda: ThetaForecaster(sp=4), heavy=True)
     add("AutoETS(trend=add)", lambda: AutoETS(trend="add"), heavy=True)
     if tier != "quick":
         add("ExpSmoothing(add,add,sp=4)", lambda: ES(trend="add", seasonal="add", sp=4), heavy=True)
-        add("ExpSmoothing(damped)", lambda: ES(trend="add", damped=True), heavy=True)
+        add("ExpSmoothing(damped)", lambda: ES(trend="add", damped_trend=True), heavy=True)
         add("Theta(sp=4,no-deseason)", lambda: ThetaForecaster(sp=4, deseasonalize=False), heavy=True)
         add("AutoETS(auto)", lambda: AutoETS(auto=True, sp=1), heavy=True)
     # ---- reductions (stub regressor)
     for strategy in ("recursive", "direct", "multioutput", "dirrec"):
         for sci in ("tabular-regressor", "time-series-regressor"):
             add(f"Reduce({strategy},{sci[:4]},w=3)", (lambda s=strategy, t=sci: red(s, t)), req=(strategy != "recursive"))
-    add("Reduce(recursive,tabu,w=5)", lambda: red("recursive", w=5))
+    add("Reduce(recursive,tabu,w=5)", lambda: red("recursive", w=5), alt={"window_length": 2})
     # ---- compositions
-    add("Ensemble(Naive,Trend)", lambda: EnsembleForecaster([("a", Naive()), ("b", Trend())]))
+    add("Ensemble(Naive,Trend)", lambda: EnsembleForecaster([("a", Naive()), ("b", Trend())]), alt={"aggfunc": "max", "a__strategy": "drift"})
     add("Ensemble(Naive(drift),Reduce(recursive),median)",
         lambda: EnsembleForecaster([("a", Naive("drift")), ("b", red("recursive")), ("c", Trend(degree=2))], aggfunc="median"))
     add("Ensemble(Naive,ExpSmoothing,min)", lambda: EnsembleForecaster([("a", Naive()), ("b", ES())], aggfunc="min"), heavy=True)
     add("Ensemble(Theta,Naive(mean))", lambda: EnsembleForecaster([("a", ThetaForecaster()), ("b", Naive("mean", window_length=4))], aggfunc="max"),
         heavy=True)
     add("Ensemble(Reduce(direct),Trend)", lambda: EnsembleForecaster([("a", red("direct")), ("b", Trend())]), req=True)
-    add("Pipeline(Detrender,Naive)", lambda: TransformedTargetForecaster([("d", Detrender()), ("f", Naive())]))
+    add("Pipeline(Detrender,Naive)", lambda: TransformedTargetForecaster([("d", Detrender()), ("f", Naive())]), alt={"f__strategy": "mean", "f__window_length": 4})
     add("Pipeline(Deseasonalizer(4),Trend)", lambda: TransformedTargetForecaster([("d", Deseasonalizer(sp=4)), ("f", Trend())]))
     add("Pipeline(Deseasonalizer(3,mult),Detrender,Reduce(recursive))",
         lambda: TransformedTargetForecaster([("s", Deseasonalizer(sp=3, model="multiplicative")), ("d", Detrender(Trend(degree=2))), ("f", red("recursive"))]))
@@ -114,7 +115,7 @@ def _catalogue(tier):
                                    final_regressor=Stub(a=0.8, scalar=False)), req=True)
     add("Stacking(ExpSmoothing,Naive)", lambda: StackingForecaster([("a", ES()), ("b", Naive())], final_regressor=Stub(scalar=False)), req=True, heavy=True)
     add("Multiplex(selected=Naive)", lambda: MultiplexForecaster([("a", Naive("mean", window_length=4)), ("b", Trend())], selected_forecaster="a"))
-    add("Multiplex(selected=Trend)", lambda: MultiplexForecaster([("a", Naive()), ("b", Trend())], selected_forecaster="b"))
+    add("Multiplex(selected=Trend)", lambda: MultiplexForecaster([("a", Naive()), ("b", Trend())], selected_forecaster="b"), alt={"selected_forecaster": "a"})
     add("Multiplex(selected=ExpSmoothing)", lambda: MultiplexForecaster([("a", Naive()), ("b", ES(trend="add"))], selected_forecaster="b"), heavy=True)
     # ---- tuned forecasters
     add("GridSearch(Naive)", lambda: ForecastingGridSearchCV(Naive(), cv=SlidingWindowSplitter(fh=[1, 2], window_length=4, step_length=3),
@@ -153,7 +154,7 @@ def _catalogue(tier):
 #   ("update", lo, hi, update_params)   forecaster.update(y[lo:hi]) then predict
 #   ("ups", lo, hi, update_params)      forecaster.update_predict_single(y[lo:hi], fh)
 #   ("refit", lo, hi)                   set_params(<same params>) and fit again on y[lo:hi], then predict
-#   ("again", steps)                    predict a different horizon, then the scenario's horizon again (predict mode only)
+#   ("again", steps)                    horizon given to predict: predict `steps`, then the scenario's horizon again; else: predict() once more
 def _scripts(n):
     return {
         "updates-without-refit": [
@@ -313,19 +314,20 @@ def _run(R, fc, steps, mode, form, script_name, n, start, kind, vals, with_alt=T
         pred = None
         called_predict = False
         use_steps = steps
-        if op == "again":
-            if mode != "predict":
-                continue
-            use_steps = st[1]
-            hist_s = f"{hist}; then predict({list(use_steps)})"
+        if op == "again":           # predict mode: another horizon in between; otherwise: simply predict once more
+            if mode == "predict":
+                use_steps = st[1]
+                hist_s = f"{hist}; then predict({list(use_steps)})"
+            else:
+                hist_s = f"{hist}; then predict() once more"
         elif op == "refit":
             lo, hi = st[1], st[2]
             if fc.req and not relative:
                 continue        # a horizon-bound forecaster refuses a different (absolute) horizon in a second fit
             cutoff = start + hi - 1
-            hist_s = f"{hist}; then set_params + fit on {start + lo}..{cutoff}"
+            hist_s = f"{hist}; then set_params({fc.alt or '<same>'}) + fit on {start + lo}..{cutoff}"
             try:
-                f.set_params(**f.get_params(deep=False))
+                f.set_params(**(fc.alt or f.get_params(deep=False)))
                 f.fit(_series(vals, start, kind, lo, hi), fh=fit_arg(cutoff))
             except Exception as e:
                 R.check("fit-no-error", False, f"{hist_s}: {type(e).__name__}: {e}")
@@ -369,7 +371,8 @@ def _run(R, fc, steps, mode, form, script_name, n, start, kind, vals, with_alt=T
                 R.check("cutoff-after-fit" if op in ("fit", "refit") else "cutoff-after-update", c_ok,
                         f"{hist_s}: cutoff is {c}, the last time point of the data passed is {cutoff}")
         # ---- forecast
-        arg, pts, skip = predict_arg(cutoff, None if op != "again" else use_steps)
+        other_h = op == "again" and mode == "predict"
+        arg, pts, skip = predict_arg(cutoff, use_steps if other_h else None)
         if skip or (alt_cutoff is not None and not relative):
             hist = hist_s
             continue
@@ -381,7 +384,7 @@ def _run(R, fc, steps, mode, form, script_name, n, start, kind, vals, with_alt=T
                 hist = hist_s
                 continue
         res = _check_forecast(R, pred, cutoff, use_steps, pts, alt_cutoff, hist_s + "; forecast")
-        if res is not None and op != "again":
+        if res is not None and not other_h:
             out[si] = (np.array(res[0]) - start, res[1])
         # ---- the same time points requested the other way (relative <-> absolute) give the same forecast
         if with_alt and mode == "predict" and not fc.req and alt_cutoff is None and res is not None:
@@ -396,7 +399,7 @@ def _run(R, fc, steps, mode, form, script_name, n, start, kind, vals, with_alt=T
                         f"points requested {'absolutely' if pts is None else 'relatively'} gave {dict(zip(_labels(other), np.round(np.asarray(other.values, dtype=float), 5).tolist()))}")
             except Exception as e:
                 R.check("predict-no-error", False, f"{hist_s}; predict with the equivalent {'absolute' if pts is None else 'relative'} horizon: {type(e).__name__}: {e}")
-        if op == "again":       # put the scenario's own horizon back
+        if other_h:             # put the scenario's own horizon back
             try:
                 arg, pts, _ = predict_arg(cutoff)
                 res = _check_forecast(R, f.predict(arg), cutoff, steps, pts, None, hist_s + f"; then predict({list(steps)}) again; forecast")
